@@ -190,6 +190,10 @@ def main():
         if pid not in CHECKS:
             continue
         tech, text, note, ref = CHECKS[pid]
+        text += (" The generated domain was widened in seven rounds of sub-agent-seeded changes (families are listed in the "
+                 "evidence file's coverage.rule and in DESIGN.md section 10); the thorough tier ends with a coverage-guided "
+                 "(atheris) stage over the same strategies and oracles.")
+        ref += "; A (as built); 10 (sensitivity)"
         checks.append({
             "property_id": pid,
             "quick_cmd": f"./check {pid} quick",
